@@ -65,7 +65,10 @@ def scenarios(draw, component=None):
             P.update(options=opts, n_sims=draw(st.integers(2, 8)))
         else:
             P.update(max_steps=draw(st.integers(3, 10)), n=draw(st.integers(2, 6)))
-    elif comp in ("astar", "bfs"):
+    if "mdp" in scn:
+        # a model that hands out its own stored list objects (as QuickMDP(actions=[...]) does): a run must not re-order them
+        scn["mdp"]["repr"]["actions"] = draw(st.sampled_from(["tuple", "shared_list", "shared_list", "list"]))
+    if comp in ("astar", "bfs"):
         g = draw(graph_specs("quick"))
         g["rep"] = draw(st.sampled_from(["next_state", "det", "dsp"]))
         scn["graph"] = g
@@ -166,12 +169,16 @@ def _perturb(kind, seed, draws):
 def prop_scenario(case, ctx):
     scn = case["scenario"]
     comp = scn["component"]
-    d0 = ctx.call(f"C13.{comp}.raises", run_scenario, scn)
+    shared = "mdp" in scn and scn["mdp"].get("repr", {}).get("actions") == "shared_list"
+    cache = {} if (shared or (scn["seed"] + len(case["perturbations"])) % 2) else None     # repeats on one problem object
+    if cache is not None:
+        ctx.event("repeats_on_the_same_problem_object")
+    d0 = ctx.call(f"C13.{comp}.raises", run_scenario, scn, cache)
     runs = 1
     for kind, seed, draws in case["perturbations"]:
         _perturb(kind, seed, draws)
         before = _global_states()
-        d = ctx.call(f"C13.{comp}.raises", run_scenario, scn)
+        d = ctx.call(f"C13.{comp}.raises", run_scenario, scn, cache)
         after = _global_states()
         runs += 1
         ctx.check(d == d0, f"C13.{comp}.result_depends_on_global_generators_or_run",
